@@ -75,6 +75,9 @@ func (sr *streamReader) Read(d []byte) (copied int, err error) {
 		if sr.nextSector < 0 {
 			return copied, errors.New("unexpected end to stream")
 		}
+		if int(sr.nextSector) >= len(sr.sat) {
+			return copied, fmt.Errorf("sector %d is outside the allocation table", sr.nextSector)
+		}
 		n, err := sr.readSector(sr.nextSector, d[:sr.sectorSize])
 		if n > 0 {
 			d = d[n:]
@@ -92,6 +95,9 @@ func (sr *streamReader) Read(d []byte) (copied int, err error) {
 	if len(d) > 0 {
 		if sr.nextSector < 0 {
 			return copied, errors.New("unexpected end to stream")
+		}
+		if int(sr.nextSector) >= len(sr.sat) {
+			return copied, fmt.Errorf("sector %d is outside the allocation table", sr.nextSector)
 		}
 		// read the full sector
 		sectorN, err := sr.readSector(sr.nextSector, sr.buf)
